@@ -58,6 +58,11 @@ func (w *Workspace) Initialize() error {
 		return err
 	}
 	w.rootJournalPath = rootPath
+	// Looking for the root may have filled the graphs with the includes of every journal
+	// file in the folder. The workspace view is the include tree of the root only: its
+	// edges are entered again, file by file, by buildIndexFromResolvedLocked.
+	w.includeGraph = make(map[string][]string)
+	w.reverseGraph = make(map[string][]string)
 
 	if rootPath != "" {
 		resolved, errs := w.loader.Load(rootPath)
